@@ -155,6 +155,10 @@ VARIANTS = [
          old="                    tree._remove_node(node)\n                    tree.sliced_inputs = tree.sliced_inputs | frozenset([i])",
          new="                    tree.sliced_inputs = tree.sliced_inputs | frozenset([i])\n                    if (i in tree.preprocessing) or (\"legs\" not in node_info):\n                        tree._remove_node(node)\n                    else:\n                        node_info.pop(\"legs\", None)\n                        node_info.pop(\"inds\", None)",
          expect=("C04-LEAF", "leaf::size")),
+    dict(name="seed C03_9: tracking flags only ever raised by a state transfer", kind="break", file=CORE,
+         old="        self._track_flops = other._track_flops\n        if other._track_flops:\n            self._flops = other._flops\n",
+         new="        if other._track_flops:\n            self._track_flops = True\n            self._flops = other._flops\n",
+         expect=("C04-COPY", "_track_flops")),
 ]
 for v in VARIANTS:
     v.pop("edits", None) if v.get("edits") is None else None
